@@ -2,6 +2,7 @@ package main
 
 import (
 	"fmt"
+	"go/token"
 	"strings"
 
 	"github.com/kyleconroy/sqlc/internal/metadata"
@@ -226,5 +227,40 @@ func runC11(r *Rng, n int, tier string) {
 			oracle = "duplicate query name across two query files accepted"
 		}
 		emit(Case{ID: "rej-dup-across-files", Kind: "reject", In: J{"files": files}, Impl: J{"ok": res.OK()}, Oracle: oracle, Tags: []string{"reject"}})
+	}
+	// query names: exactly the Go identifiers are accepted, each giving the method of that name (the oracle is
+	// go/token's own definition of an identifier, not sqlc's)
+	qnames := []string{"GetAuthor", "getAuthor", "_get", "_", "get_author_2", "X", "x9", "GetCafé", "Größe٣", "ВсеАвторы", "著者一覧", "Ünïcode", "αβγ", "a٣",
+		"9Foo", "٣Foo", "Get-Foo", "Get.Foo", "Foo²", "a b", "Get!", "é-", "Get$", ""}
+	for i, qn := range qnames {
+		for _, cmd := range []string{":one", ":exec"} {
+			body := "SELECT id FROM authors WHERE id = $1"
+			if cmd == ":exec" {
+				body = "DELETE FROM authors WHERE id = $1"
+			}
+			files := map[string]string{"schema.sql": schema, "query.sql": fmt.Sprintf("-- name: %s %s\n%s;\n", qn, cmd, body), "sqlc.json": confV1("postgresql", "")}
+			res := generate(files)
+			ident := token.IsIdentifier(qn)
+			oracle := ""
+			nm := -1
+			switch {
+			case res.Panic != "":
+				oracle = "panic: " + res.Panic
+			case ident && !res.OK():
+				oracle = fmt.Sprintf("query name %q is a Go identifier but the statement yields no method: %s", qn, firstLine(res.Stderr))
+			case ident:
+				sum := summarize(res.Files)
+				nm = len(sum.queryMethods())
+				if nm != 1 || sum.method(qn) == nil {
+					oracle = fmt.Sprintf("query name %q: %d methods generated, want exactly one method %s", qn, nm, qn)
+				}
+			case !ident && res.OK() && qn != "":
+				// go/format would have caught a non-identifier: reaching here means code was emitted for it
+				oracle = fmt.Sprintf("query name %q is not a Go identifier but was accepted", qn)
+			case !ident && !res.OK() && strings.TrimSpace(res.Stderr) == "":
+				oracle = fmt.Sprintf("query name %q rejected without a diagnostic", qn)
+			}
+			emit(Case{ID: fmt.Sprintf("qname-%d%s", i, cmd), Kind: "reject", In: J{"files": files, "name": qn, "identifier": ident}, Impl: J{"ok": res.OK(), "methods": nm}, Oracle: oracle, Tags: []string{"query-name", fmt.Sprintf("identifier=%v", ident)}})
+		}
 	}
 }
